@@ -258,7 +258,7 @@ func TestVerifC36Exhaustive(t *testing.T) {
 		n := bits.OnesCount64(curMask)
 		for mainMask := uint64(0); mainMask <= full; mainMask++ {
 			pair++
-			if pair%nshards != shard {
+			if int((uint64(pair)*0x9E3779B97F4A7C15)>>33)%nshards != shard { // mixed, so that shards do not correlate with low mask bits
 				continue
 			}
 			cur, main := vc36List(u, curMask), vc36List(u, mainMask)
